@@ -199,6 +199,12 @@ fn keyword_or_identifier(identifier: String) -> Token {
         .unwrap_or(Token::Identifier(identifier))
 }
 
+/// Whether a bare word is lexed as a keyword, command, data type or modifier rather than as an
+/// identifier.
+pub(crate) fn is_reserved_word(word: &str) -> bool {
+    !matches!(keyword_or_identifier(word.to_owned()), Token::Identifier(_))
+}
+
 fn is_valid_identifier_leading_character(chr: char) -> bool {
     chr.is_ascii_alphabetic() || chr == '_'
 }
